@@ -919,6 +919,57 @@ func (e *SpecEnv) trCall(x *ECall) Val {
 		return Val{T: c.ufun("m_"+id.Name, "F", []string{"F"}, e.toF(x.Args[0])), Ty: tF}
 	case "atan2", "pow":
 		return Val{T: c.ufun("m_"+id.Name, "F", []string{"F", "F"}, e.toF(x.Args[0]), e.toF(x.Args[1])), Ty: tF}
+	case "objOf":
+		// objOf(x): the identity (object id) of what x refers to, as an int
+		if len(x.Args) != 1 {
+			return e.errorf("objOf(x) expected")
+		}
+		obj, ok := e.ghostObj(x.Args[0])
+		if !ok {
+			return e.errorf("objOf: %s does not denote an object", x.Args[0])
+		}
+		return Val{T: obj, Ty: tInt}
+	case "ghostO", "ghostAtO":
+		// the same ghost cells addressed by object id
+		if len(x.Args) < 2 {
+			return e.errorf("ghostO(obj, \"name\") expected")
+		}
+		nm, ok := x.Args[1].(*EString)
+		if !ok {
+			return e.errorf("ghostO: the field name must be a string literal")
+		}
+		idx := "0"
+		if id.Name == "ghostAtO" {
+			if len(x.Args) != 3 {
+				return e.errorf("ghostAtO(obj, \"name\", i) expected")
+			}
+			idx = e.tr(x.Args[2]).T
+		}
+		return Val{T: fmt.Sprintf("(select (select %s %s) %s)", e.heapOf("ghost!"+nm.V), e.tr(x.Args[0]).T, idx), Ty: tInt}
+	case "ghost", "ghostAt":
+		// ghost(x, "name") / ghostAt(x, "name", i): integer-valued specification state
+		// attached to the object x refers to (interface payload, pointer target or
+		// slice backing object); it changes only through contracts that list it in
+		// their modifies clause
+		if len(x.Args) < 2 {
+			return e.errorf("ghost(x, \"name\") expected")
+		}
+		nm, ok := x.Args[1].(*EString)
+		if !ok {
+			return e.errorf("ghost: the field name must be a string literal")
+		}
+		obj, ok2 := e.ghostObj(x.Args[0])
+		if !ok2 {
+			return e.errorf("ghost: %s does not denote an object", x.Args[0])
+		}
+		idx := "0"
+		if id.Name == "ghostAt" {
+			if len(x.Args) != 3 {
+				return e.errorf("ghostAt(x, \"name\", i) expected")
+			}
+			idx = e.tr(x.Args[2]).T
+		}
+		return Val{T: fmt.Sprintf("(select (select %s %s) %s)", e.heapOf("ghost!"+nm.V), obj, idx), Ty: tInt}
 	case "mapHas":
 		m := e.tr(x.Args[0])
 		k := e.tr(x.Args[1])
@@ -1241,6 +1292,15 @@ func (e *SpecEnv) modItems(m Expr) []modItem {
 		deref = true
 	}
 	if call, ok := m.(*ECall); ok {
+		if id, ok := call.Fun.(*EIdent); ok && id.Name == "ghost" && len(call.Args) == 2 {
+			if nm, ok := call.Args[1].(*EString); ok {
+				if obj, ok := e.ghostObj(call.Args[0]); ok {
+					return []modItem{{sortKey: "ghost!" + nm.V, obj: obj}}
+				}
+			}
+			e.errorf("modifies ghost(x, \"name\"): bad arguments")
+			return nil
+		}
 		if id, ok := call.Fun.(*EIdent); ok && id.Name == "pointee" && len(call.Args) == 1 {
 			// pointee(x): x is an interface value built at the call site from a typed
 			// pointer (binary.Read(r, order, &v)): the cell it points to and, for a
@@ -1254,12 +1314,12 @@ func (e *SpecEnv) modItems(m Expr) []modItem {
 			if !ok {
 				return nil // a non-pointer value: nothing the callee can write through
 			}
-			items := []modItem{{sortKey: c.hk(pt.Elem()), obj: c.acc("pobj", v.Boxed.T), idx: c.acc("pidx", v.Boxed.T)}}
 			if sl, ok := pt.Elem().Underlying().(*types.Slice); ok {
+				// a pointer to a slice: the elements are filled in, the header stays
 				hdr := c.rd(e.heapOf(c.hk(pt.Elem())), c.acc("pobj", v.Boxed.T), c.acc("pidx", v.Boxed.T))
-				items = append(items, modItem{sortKey: c.hk(sl.Elem()), obj: c.acc("sobj", hdr)})
+				return []modItem{{sortKey: c.hk(sl.Elem()), obj: c.acc("sobj", hdr)}}
 			}
-			return items
+			return []modItem{{sortKey: c.hk(pt.Elem()), obj: c.acc("pobj", v.Boxed.T), idx: c.acc("pidx", v.Boxed.T)}}
 		}
 	}
 	v := e.tr(m)
@@ -1703,4 +1763,23 @@ func elemKeysDiffer(c *Ctx, a, b types.Type) bool {
 		}
 	}
 	return false
+}
+
+// ghostObj: the object id a ghost field hangs on.
+func (e *SpecEnv) ghostObj(x Expr) (string, bool) {
+	c := e.c
+	v := e.tr(x)
+	if v.Ty == nil {
+		return "", false
+	}
+	switch v.Ty.Underlying().(type) {
+	case *types.Interface:
+		c.box(types.NewPointer(tInt), "")
+		return fmt.Sprintf("(pobj (unbox_Ptr (ival %s)))", v.T), true
+	case *types.Pointer:
+		return c.acc("pobj", v.T), true
+	case *types.Slice:
+		return c.acc("sobj", v.T), true
+	}
+	return "", false
 }
